@@ -680,6 +680,8 @@ class Translator:
             orders_ok.append("(is_perm_of_range %d [%s]) && (is_perm_of_range %d [%s])" % (
                 len(parts), "; ".join("%d%%nat" % i for i in eo), len(parts), "; ".join("%d%%nat" % i for i in xo)))
         A("Definition new (k : kid) (args : list val) (g : gs) : option (list (cid * list val)) := match k with\n%s end." % "\n".join(newcases))
+        A("Definition prim_of (k : kid) : option cid := match k with %s end." % " | ".join(
+            ["k_%s => Some c_%s" % (c, c) for c in prim] + ["k_%s => None" % c for c in comp]))
         A("Fixpoint list_nat_eqb (a b : list nat) : bool := match a, b with [], [] => true | x :: r, y :: s => Nat.eqb x y && list_nat_eqb r s | _, _ => false end.")
         A("Definition is_perm_of_range (n : nat) (l : list nat) : bool := Nat.eqb (length l) n && forallb (fun i => existsb (Nat.eqb i) l) (seq 0 n).")
         A("Definition orders_ok : bool := %s." % (" && ".join(["true"] + orders_ok)))
